@@ -50,6 +50,8 @@ fn read_smiles<F: Follower>(
     follower: &mut F,
     trace: &mut Option<&mut Trace>
 ) -> Result<Option<usize>, Error> {
+    #[cfg(purr_verif)]
+    let _depth = super::depth::Guard::enter();
     let cursor = scanner.cursor();
     let atom_kind = match read_atom(scanner)? {
         Some(kind) => kind,
